@@ -218,7 +218,7 @@ theorem roundOrig_eq_round_of_pos (x : Dec) (hp : 0 < x.prec) : roundOrig x = ro
   simp only [roundOrig, round]
   by_cases hr : x.data.tmod (mult x.prec) = 0
   · have h1 : ¬ ((x.data.tmod (mult x.prec)).natAbs : Int) ≥ (mult x.prec).tdiv 2 := by omega
-    simp [hr, h1]
+    simp [hr]
     omega
   · simp [hr]
 
